@@ -1042,8 +1042,80 @@ func (c *Ctx) senderBounds(rel string) map[ssa.CallInstruction]int64 {
 // be at least as long as the longest datagram a bisquitt sender lets through,
 // and at least MaxPayloadLength plus the longest fixed part (long header 4 +
 // PUBLISH fixed fields 5).
+// checkReadBufferFresh: every place in gateway / client / packets1 that reads a datagram and hands the bytes to the
+// packets1 decoders uses a buffer allocated for that one read: decoded packets keep slices of the buffer (PUBLISH data,
+// client ID, AUTH data), so a buffer reused for the next datagram silently rewrites packets still in use.
+func (cm *codecModel) checkReadBufferFresh(r *Report, rule string) {
+	c := cm.c
+	n := 0
+	for _, rel := range []string{"gateway", "client", "packets1"} {
+		for _, f := range c.repoFuncs(rel) {
+			decodes := false
+			allInstrs(f, func(i ssa.Instruction) {
+				if ci, ok := i.(ssa.CallInstruction); ok {
+					if g := staticCallee(ci.Common()); g != nil && (fnPkgPath(g) == pkPackets1 || calleeName(ci.Common()) == "(*"+pkPackets+".Header).Unpack") {
+						for _, a := range ci.Common().Args {
+							if isByteSlice(a.Type()) {
+								decodes = true
+							}
+						}
+					}
+				}
+			})
+			_ = decodes // (the read may sit in a helper of the decoding function: every Read of these packages is a datagram read)
+			allInstrs(f, func(i ssa.Instruction) {
+				ci, ok := i.(ssa.CallInstruction)
+				if !ok || len(ci.Common().Args) == 0 {
+					return
+				}
+				isRead := ci.Common().IsInvoke() && ci.Common().Method.Name() == "Read"
+				if g := staticCallee(ci.Common()); g != nil && g.Name() == "Read" && g.Signature.Recv() != nil {
+					isRead = true
+				}
+				if !isRead {
+					return
+				}
+				buf := ci.Common().Args[len(ci.Common().Args)-1]
+				if !isByteSlice(buf.Type()) {
+					return
+				}
+				n++
+				r.fn(f)
+				key := fnKey(f) + ":read-buffer-fresh-per-datagram"
+				v := buf
+				for d := 0; d < 3; d++ {
+					if sl, ok := v.(*ssa.Slice); ok {
+						v = sl.X
+						continue
+					}
+					break
+				}
+				// make([]byte, n): a MakeSlice, or (constant n) a fresh array that is sliced
+				var allocAt ssa.Instruction
+				if ms, ok := v.(*ssa.MakeSlice); ok {
+					allocAt = ms
+				} else if a, ok := v.(*ssa.Alloc); ok {
+					allocAt = a
+				}
+				switch {
+				case allocAt != nil && (!inCycle(i.Block()) || inCycle(allocAt.Block())):
+					r.ok(rule, key, c.instrPos(i), "the buffer is allocated for this read")
+				case allocAt != nil:
+					r.bad(rule, key, c.instrPos(i), "the buffer is allocated once ("+c.instrPos(allocAt)+") and reused for every datagram read in the loop: the decoded packets keep slices of it (PUBLISH data, client ID, AUTH password), which the next datagram overwrites while they are still in use")
+				default:
+					r.bad(rule, key, c.instrPos(i), "the read buffer is not allocated per datagram ("+exprStr(buf)+"): decoded packets keep slices of it, which a later datagram overwrites")
+				}
+			})
+		}
+	}
+	if n == 0 {
+		r.undecided(rule, "read-buffer-fresh-per-datagram", "-", "no function that reads a datagram and decodes it found")
+	}
+}
+
 func (cm *codecModel) checkReadBuffer(r *Report, rule string) {
 	c := cm.c
+	cm.checkReadBufferFresh(r, rule)
 	f := c.SSA[pkPackets1].Func("ReadPacket")
 	if f == nil {
 		r.undecided(rule, "ReadPacket:buffer", "-", "ReadPacket not found")
